@@ -165,7 +165,7 @@ func loadHistoryV1(prog *common.Program, initial []string, steps [][]string) (*c
 }
 
 // … with hand lookups: before incremental step i every name in lookups[i] is looked up with Universe.Type
-func loadHistoryV1L(prog *common.Program, initial []string, steps [][]string, lookups [][][2]string) (*common.USnap, bool, []string, error) {
+func loadHistoryV1L(prog *common.Program, initial []string, steps [][]string, lookups [][][3]string) (*common.USnap, bool, []string, error) {
 	gopathMu.Lock()
 	defer gopathMu.Unlock()
 	root, err := writeGopath(prog)
@@ -192,7 +192,16 @@ func loadHistoryV1L(prog *common.Program, initial []string, steps [][]string, lo
 	for si, step := range steps {
 		if si < len(lookups) {
 			for _, n := range lookups[si] {
-				u.Type(types.Name{Package: n[0], Name: n[1]})
+				switch nm := (types.Name{Package: n[0], Name: n[1]}); n[2] {
+				case "func":
+					u.Function(nm)
+				case "var":
+					u.Variable(nm)
+				case "const":
+					u.Constant(nm)
+				default:
+					u.Type(nm)
+				}
 			}
 		}
 		// objects obtained before the incremental load
